@@ -705,7 +705,15 @@ def run(ctx: C.Ctx):
                 'blanks), loaded from the correspondingly keyed documents and dumped back; results compared positionally. '
                 'Every model (original or renamed, benign or adversarial, alternating) is also defined a second time with the SAME spelling '
                 '(definitions re-executed in another module) and used after the first: the copy loads into its own classes (class identity), '
-                'dumps alike, and the first model is unaffected.')
+                'dumps alike, and the first model is unaffected. '
+                'Generator-as-text stream (harness/props/c15_gendump.py): seeded dataclasses over everything dump_func_for_dataclass reads '
+                '(0-12 fields in any order, defaults, all=True aliases with adversarial text, dump=False, JSON paths with str / int / bool '
+                'parts, CatchAll with / without default, per-field SkipIf and Meta skip_if / skip_defaults_if with every operator x inlined / '
+                'closure-bound comparison values, skip_defaults, tag / tag_key text, _pre_dict, key transforms, field names equal to the '
+                "template's own variables, load before dump): parameter list, body text and ordered closure keys of the captured cls_asdict "
+                '== the Lean generator model byte for byte; names read / bound per symtable == model; the function is run through every branch '
+                'of its bookkeeping (NameError / UnboundLocalError = violation) and that outcome == the model verdict (theorem '
+                'C15_gendump_well_scoped).')
     ctx.assumptions += ['strings with lone surrogates are outside the Lean Char type and not generated',
                         'field names that are attributes of JSONWizard itself (to_dict, from_json, ...) or start with "__" are excluded: '
                         'they conflict with the class API / Python name mangling, not with the generators']
@@ -858,6 +866,9 @@ def run(ctx: C.Ctx):
             for v, m in zip(fvs, o.get('fieldVars', [])):
                 ctx.agree('fieldVar', {'name': v}, v, m)
             ctx.agree('typeLocal', {}, ['Color_3', '_x_0', 'fields_12'], o.get('typeLocals'))
+        # ---- the generator of cls_asdict as text (model: lean/DW/Model/GenDump.lean)
+        from . import c15_gendump
+        c15_gendump.run_gendump(ctx)
     finally:
         model.SAFE = False
         logging.disable(logging.NOTSET)
